@@ -11,87 +11,41 @@ func vpFieldIndex(ti int, name string) int {
 	return -1
 }
 
+// vpTypeIndexOf finds the vocabulary struct type of a value (pointer form).
+func vpTypeIndexOf(it Item) int {
+	for i := range vpTypeNames {
+		if vpSameGoType(vpNew(i), it) {
+			return i
+		}
+	}
+	return -1
+}
+
+// vpGetItemField / vpGetListField read a property through the struct's own field (generated
+// accessors over the current struct definitions), not through a typed view.
 func vpGetItemField(it Item, name string) Item {
-	var r Item
-	get := func(o *Object) {
-		switch name {
-		case "AttributedTo":
-			r = o.AttributedTo
-		case "Replies":
-			r = o.Replies
-		case "Likes":
-			r = o.Likes
-		case "Shares":
-			r = o.Shares
-		}
-	}
-	switch x := it.(type) {
-	case *Activity:
-		switch name {
-		case "Actor":
-			return x.Actor
-		case "Object":
-			return x.Object
-		case "Target":
-			return x.Target
-		case "Result":
-			return x.Result
-		case "Origin":
-			return x.Origin
-		case "Instrument":
-			return x.Instrument
-		}
-	case *IntransitiveActivity:
-		switch name {
-		case "Actor":
-			return x.Actor
-		case "Target":
-			return x.Target
-		case "Result":
-			return x.Result
-		case "Origin":
-			return x.Origin
-		case "Instrument":
-			return x.Instrument
-		}
-	case *Question:
-		switch name {
-		case "Actor":
-			return x.Actor
-		case "Target":
-			return x.Target
-		case "Result":
-			return x.Result
-		case "Origin":
-			return x.Origin
-		case "Instrument":
-			return x.Instrument
-		}
-	}
-	_ = OnObject(it, func(o *Object) error {
-		get(o)
+	ti := vpTypeIndexOf(it)
+	if ti < 0 {
 		return nil
-	})
+	}
+	f := vpFieldIndex(ti, name)
+	if f < 0 {
+		return nil
+	}
+	r, _ := vpFieldBox(it, f).(Item)
 	return r
 }
 
 func vpGetListField(it Item, name string) ItemCollection {
-	var r ItemCollection
-	_ = OnObject(it, func(o *Object) error {
-		switch name {
-		case "To":
-			r = o.To
-		case "Bto":
-			r = o.Bto
-		case "CC":
-			r = o.CC
-		case "BCC":
-			r = o.BCC
-		case "Audience":
-			r = o.Audience
-		}
+	ti := vpTypeIndexOf(it)
+	if ti < 0 {
 		return nil
-	})
+	}
+	f := vpFieldIndex(ti, name)
+	if f < 0 {
+		return nil
+	}
+	r, _ := vpFieldBox(it, f).(ItemCollection)
 	return r
 }
 
